@@ -102,6 +102,10 @@ func (p *SignatureParams) DefaultsFromBundle(cert *certloader.Certificate) error
 
 const defaultPageSizeLog2 = 12
 
+// largest page size accepted when verifying; the page buffer is allocated from
+// this untrusted header field. Signatures use 4 KiB or 16 KiB pages.
+const maxPageSizeLog2 = 20
+
 func Sign(ctx context.Context, cert *certloader.Certificate, params *SignatureParams) ([]byte, *pkcs9.TimestampedSignature, error) {
 	// hash code pages
 	hashFuncs := params.hashFuncs()
